@@ -254,22 +254,54 @@ impl QueryFilter {
         }
     }
 
-    /// Extract predicates from an expression recursively
+    /// Extract predicates from an expression.
+    ///
+    /// The resulting list is applied as a conjunction, so only the conjuncts of top-level
+    /// ANDs become separate entries; everything below is kept as a predicate tree.
     fn extract_predicates_from_expr(expr: &Expr, predicates: &mut Vec<ColumnPredicate>) {
         match expr {
-            Expr::BinaryOp { left, op, right } => {
-                if let Some(pred) = Self::try_extract_comparison(left, op, right) {
-                    predicates.push(pred);
-                }
-                if matches!(op, BinaryOperator::And | BinaryOperator::Or) {
-                    Self::extract_predicates_from_expr(left, predicates);
-                    Self::extract_predicates_from_expr(right, predicates);
-                }
+            Expr::BinaryOp {
+                left,
+                op: BinaryOperator::And,
+                right,
+            } => {
+                Self::extract_predicates_from_expr(left, predicates);
+                Self::extract_predicates_from_expr(right, predicates);
             }
             Expr::Nested(inner) => {
                 Self::extract_predicates_from_expr(inner, predicates);
             }
-            _ => {}
+            other => {
+                if let Some(pred) = Self::expr_to_predicate(other) {
+                    predicates.push(pred);
+                }
+            }
+        }
+    }
+
+    /// Convert an expression to a predicate tree.
+    ///
+    /// Returns `None` for anything that is not understood, which means "may match":
+    /// an unknown conjunct is dropped, an unknown disjunct makes the whole OR unknown.
+    fn expr_to_predicate(expr: &Expr) -> Option<ColumnPredicate> {
+        match expr {
+            Expr::BinaryOp { left, op, right } => match op {
+                BinaryOperator::And => {
+                    match (Self::expr_to_predicate(left), Self::expr_to_predicate(right)) {
+                        (Some(l), Some(r)) => Some(ColumnPredicate::And(Box::new(l), Box::new(r))),
+                        (Some(p), None) | (None, Some(p)) => Some(p),
+                        (None, None) => None,
+                    }
+                }
+                BinaryOperator::Or => {
+                    let l = Self::expr_to_predicate(left)?;
+                    let r = Self::expr_to_predicate(right)?;
+                    Some(ColumnPredicate::Or(Box::new(l), Box::new(r)))
+                }
+                _ => Self::try_extract_comparison(left, op, right),
+            },
+            Expr::Nested(inner) => Self::expr_to_predicate(inner),
+            _ => None,
         }
     }
 
